@@ -282,7 +282,9 @@ def impl(case):
             elif k == "transform":
                 GROUPED_BAD[0] = False
                 SLICE_EXPECT[0] = None
-                rec["nrow_before"] = int(df.nrow) if df.ncol else None
+                # (a frame without columns has no row count to violate; an operand column whose name the receiver already
+                # has is skipped by cbind — first occurrence wins — and never measured)
+                rec["nrow_before"] = int(df.nrow) if df.ncol and not (st["m"] == "cbind_long" and "wl" in df) else None
                 try:
                     out = transform(df, st["m"])
                 finally:
